@@ -6,6 +6,7 @@ import (
 	"bytes"
 	"crypto/sha256"
 	"encoding/hex"
+	"errors"
 	"flag"
 	"fmt"
 	"os"
@@ -13,7 +14,9 @@ import (
 	"path/filepath"
 	"sort"
 	"strings"
+	"syscall"
 	"testing"
+	"time"
 
 	"golang.org/x/telemetry/internal/verifref"
 	"golang.org/x/telemetry/internal/verifrt"
@@ -105,9 +108,26 @@ func runHostTraced(home, mode, trace string) (string, string, error) {
 	var out, errb bytes.Buffer
 	cmd.Stdout = &out
 	cmd.Stderr = &errb
-	err := cmd.Run()
-	return out.String(), errb.String(), err
+	// The host gets a process group of its own and a generous watchdog: a host
+	// that never finishes (it normally takes a few milliseconds) is killed with
+	// its descendants instead of being left behind spinning.
+	cmd.SysProcAttr = &syscall.SysProcAttr{Setpgid: true}
+	if err := cmd.Start(); err != nil {
+		return "", "", err
+	}
+	done := make(chan error, 1)
+	go func() { done <- cmd.Wait() }()
+	select {
+	case err := <-done:
+		return out.String(), errb.String(), err
+	case <-time.After(3 * time.Minute):
+		syscall.Kill(-cmd.Process.Pid, syscall.SIGKILL)
+		<-done
+		return out.String(), errb.String() + "\nVERIF-WATCHDOG: host killed after 3 minutes", errHostWatchdog
+	}
 }
+
+var errHostWatchdog = errors.New("host did not finish within the 3-minute watchdog")
 
 func TestVerifPublic(t *testing.T) {
 	c05 := verifrt.NewResult("C05.public")
@@ -363,7 +383,10 @@ func TestVerifPublic(t *testing.T) {
 		c05.Hit("state:" + state)
 		c05.Hit("host:" + hostMode)
 		rp := verifrt.CaseReplay(i, map[string]any{"state": state, "host": hostMode})
-		if err != nil || !strings.Contains(out, "HOST-OK") {
+		if err == errHostWatchdog {
+			// (a wall-clock watchdog is no verdict)
+			c05.Inconc(fmt.Sprintf("host program in state %s did not finish within the watchdog and was killed", state))
+		} else if err != nil || !strings.Contains(out, "HOST-OK") {
 			sig := "host-crashed:" + state
 			if strings.Contains(errOut, "fatal error") || strings.Contains(errOut, "panic:") || strings.Contains(errOut, "SIGSEGV") || strings.Contains(errOut, "SIGBUS") {
 				sig = "host-crashed-by-telemetry:" + state
